@@ -29,8 +29,9 @@ RowHits(e) ==
       [] e.e = "Sigma" -> Judge(e, e.zero = 0, "sigma")
       \* init() resizes members of the (surviving) solver object, so the heap delta of the call itself is not a leak measure
       [] e.e = "Init" -> If(e.out = Required(e.zero = 0), IF e.zero = 0 THEN "AcceptsValid:init" ELSE "RejectsInvalid:init", e)
-      [] e.e = "Rule" -> Judge(e, RuleOK(e.gen, e.role, e.rule), "rule")
-      [] e.e = "AfterRule" -> If(e.out = 0, "UsableAfterRejection", e) \cup If(e.leak = 0, "NoLeak:after", e)
+      \* compute() resizes/permutes members of the surviving solver object: only the outcome is judged
+      [] e.e = "Rule" -> If(e.out = Required(RuleOK(e.gen, e.role, e.rule)), IF RuleOK(e.gen, e.role, e.rule) THEN "AcceptsValid:rule" ELSE "RejectsInvalid:rule", e)
+      [] e.e = "AfterRule" -> If(e.out = 0, "UsableAfterRejection", e)
       [] e.e \in {"Reset", "EndArgs"} -> {}
       [] OTHER -> {Hit("UnknownRow", e)}
 
